@@ -99,6 +99,19 @@ func (c *Ctx) FindIndexOf(fn *ssa.Function) *findIndex {
 				if !ok {
 					continue
 				}
+				// the slice may sit in a nested struct of the parameter (p.A.F): the path is kept relative to p
+				for {
+					if inner, isFA := sbase.(*ssa.FieldAddr); isFA {
+						_, f2, b2, ok2 := FieldOf(inner)
+						if !ok2 {
+							break
+						}
+						sf = f2 + "." + sf
+						sbase = b2
+						continue
+					}
+					break
+				}
 				p := paramIdx(sbase)
 				if p < 0 {
 					continue
@@ -145,12 +158,33 @@ func (c *Ctx) foundIndexAt(v ssa.Value, at *ssa.BasicBlock) (*findIndex, *ssa.Ca
 			if !isC {
 				continue
 			}
-			switch {
-			case k == fi.notFound && ((bo.Op == token.NEQ && f.Truth) || (bo.Op == token.EQL && !f.Truth)):
-				return fi, call
-			case k == fi.notFound && bo.Op == token.GTR && f.Truth && pr[0] == bo.X:
-				return fi, call
-			case k == fi.notFound+1 && bo.Op == token.GEQ && f.Truth && pr[0] == bo.X:
+			left := pr[0] == bo.X
+			holds := func(x int64) bool {
+				a, b := x, k
+				if !left {
+					a, b = k, x
+				}
+				var r bool
+				switch bo.Op {
+				case token.EQL:
+					r = a == b
+				case token.NEQ:
+					r = a != b
+				case token.LSS:
+					r = a < b
+				case token.LEQ:
+					r = a <= b
+				case token.GTR:
+					r = a > b
+				case token.GEQ:
+					r = a >= b
+				default:
+					return true
+				}
+				return r == f.Truth
+			}
+			// the fact excludes NOTFOUND and admits every position
+			if !holds(fi.notFound) && holds(0) && holds(1) && holds(1<<40) {
 				return fi, call
 			}
 		}
